@@ -102,6 +102,11 @@ def gen_case(rng):
     pol = objs.rand_vec(rng)
     case = {"identity": ident, "P": P, "Q": Q, "pol": pol, "seed": int(rng.integers(0, 2**31)),
             "field": str(rng.choice(["B", "H"]))}
+    if ident == "mesh_conversions":
+        # bodies from micrometres to kilometres, optionally thin films: the conversions must keep the geometry they
+        # are given, whatever its size
+        case["size"] = float(rng.choice([1.0, 1.0, 1e-3, 1e-6, 1e-6, 1e3]))
+        case["thin"] = float(rng.choice([1.0, 1.0, 1e-1, 1e-2, 1e-3]))
     return case
 
 
@@ -314,6 +319,11 @@ def check_mesh_conversions(ctx, case, rng):
 
     V, Fc = objs.rand_mesh(rng)
     P, Q, pol = case["P"], case["Q"], case["pol"]
+    size, thin = case.get("size", 1.0), case.get("thin", 1.0)
+    if size != 1.0 or thin != 1.0:
+        V = (np.array(V) * np.array([1.0, 1.0, thin]) * size).tolist()
+        P = (np.array(P) * size).tolist()
+        ctx.count("mesh_conversions_size:%g" % size)
     spec = {"cls": "TriangularMesh", "vertices": V, "faces": Fc, "polarization": pol, "position": P, "orientation": Q}
     obs = observers(rng, spec, 5)
     if len(obs) == 0:
@@ -329,8 +339,10 @@ def check_mesh_conversions(ctx, case, rng):
             m_hull = magpy.magnet.TriangularMesh.from_ConvexHull(points=np.array(V), **kw)
             ref = {F: np.asarray(getattr(magpy, "get" + F)(m, obs, squeeze=False))[0] for F in "BH"}
             got = {"to_TriangleCollection": {"H": np.asarray(magpy.getH(coll, obs, squeeze=False))[0]}}
+            made = {}
             for name, o in (("from_triangles(list)", m_tri), ("from_triangles(Collection)", m_tri2), ("from_mesh", m_mesh),
                             ("from_ConvexHull", m_hull)):
+                made[name] = o
                 got[name] = {F: np.asarray(getattr(magpy, "get" + F)(o, obs, squeeze=False))[0] for F in "BH"}
     except Exception as e:
         ctx.violation({"kind": "identity-raised", "identity": "mesh_conversions", "type": type(e).__name__}, case, exc_info(e))
@@ -345,7 +357,20 @@ def check_mesh_conversions(ctx, case, rng):
                 return
             dd = np.linalg.norm(val - ref[F], axis=-1)
             if np.any(dd > 1e-6 * np.linalg.norm(ref[F], axis=-1) + fl):
-                ctx.violation({"kind": "conversion-changes-field", "conversion": name, "field": F}, case,
+                extra = {}
+                if name in made:
+                    # mechanism flags (the harness's own explanation): the converted mesh came out inside out, and the
+                    # body is thinner than 1e-4 of its extent perpendicular to one of its faces - the regime of the
+                    # orientation-seed defect recorded for C16 (check point displaced by 1e-5 extents leaves the body)
+                    from vfw.oracles import meshes as MZ
+                    Vc, Fk = np.array(made[name].vertices), np.array(made[name].faces)
+                    T = Vc[Fk]
+                    nrm = np.cross(T[:, 1] - T[:, 0], T[:, 2] - T[:, 0])
+                    nrm /= np.linalg.norm(nrm, axis=1)[:, None] + 1e-300
+                    width = np.abs(np.einsum("fk,fvk->fv", nrm, Vc[None, :, :] - T[:, :1, :])).max(axis=1).min()
+                    extra = {"inside_out": bool(MZ.signed_volume(Vc, Fk) < 0),
+                             "body_width<=1e-4_extent": bool(width <= 1e-4 * float(np.ptp(Vc, axis=0).max()))}
+                ctx.violation({"kind": "conversion-changes-field", "conversion": name, "field": F, **extra}, case,
                               {"err": float(dd.max()), "ref": ref[F].ravel()[:3], "got": val.ravel()[:3]})
                 return
 
